@@ -98,7 +98,7 @@ pub fn build_base() -> Base {
 
 #[derive(Clone, Copy, Debug)]
 pub struct Cfg {
-    pub pair_a: u8,  // 0 none, 1 small, 2 large
+    pub pair_a: u8,  // 0 none, 1 small, 2 large both sides, 3 mixed (one side above the threshold, the other 1..=1000)
     pub pair_b: u8,
     pub vault_w: u8,
     pub vault_a: u8,
@@ -109,8 +109,8 @@ pub struct Cfg {
 
 pub fn all_cfgs() -> Vec<Cfg> {
     let mut v = vec![];
-    for pair_a in 0..3 {
-        for pair_b in 0..3 {
+    for pair_a in 0..4 {
+        for pair_b in 0..4 {
             for vault_w in 0..3 {
                 for vault_a in 0..3 {
                     for take in 0..6 {
@@ -155,6 +155,10 @@ fn pair_fee_state(w: &mut World, p: &PairH, level: u8) {
         2 => {
             pair_swap(w, &p.addr, BOB, &p.assets[1], 500_000, loose_belief(), None, None).expect("large fee swap");
             pair_swap(w, &p.addr, BOB, &p.assets[0], 300_000, loose_belief(), None, None).expect("large fee swap back");
+        }
+        3 => {
+            pair_swap(w, &p.addr, BOB, &p.assets[1], 500_000, loose_belief(), None, None).expect("mixed: large fee swap");
+            pair_swap(w, &p.addr, BOB, &p.assets[0], 50_000, loose_belief(), None, None).expect("mixed: small fee swap back");
         }
         _ => {}
     }
@@ -377,7 +381,7 @@ pub fn run(tier: &str, seed: u64) -> i32 {
     let n = cfgs.len();
     ev.add_grid_result(
         "pipeline-configurations",
-        "full product: pair A/B fee state {0,<1000,>1000}^2 x vault W/A fee state {0,500,5000}^2 x take rate {inactive,0,1e-18,1%,50%,1-1e-18} x routes {both,none,A,B} x fault {none, pair A swaps disabled, A hop exceeds max spread, B hop exceeds max spread}",
+        "full product: pair A/B fee state {0,<1000,>1000 both sides,mixed}^2 x vault W/A fee state {0,500,5000}^2 x take rate {inactive,0,1e-18,1%,50%,1-1e-18} x routes {both,none,A,B} x fault {none, pair A swaps disabled, A hop exceeds max spread, B hop exceeds max spread}",
         res,
         &|i| cfg_json(&cfgs[i]),
         &[0, n / 3, n / 2, n - 1],
